@@ -250,7 +250,14 @@ def load_known() -> dict:
     files = [VERIF / "known_findings.json"] + sorted((VERIF / "known_findings.d").glob("*.json"))
     for f in files:
         if f.exists():
-            d = json.loads(f.read_text())
+            for attempt in range(5):
+                try:
+                    d = json.loads(f.read_text())
+                    break
+                except json.JSONDecodeError:
+                    if attempt == 4:
+                        raise Infra(f"{f} is not valid JSON")
+                    time.sleep(0.3)
             out["findings"] += d.get("findings", [])
             out["fixed"] += d.get("fixed", [])
     return out
@@ -427,7 +434,12 @@ def run_property(pid: str, tier: str, seed: int, replay: str | None = None) -> i
         searched = False
         if ctx.tie_broken and not ctx.violations and hasattr(mod, "search"):
             searched = True
-            mod.search(ctx)
+            try:
+                mod.search(ctx)
+            except (Infra, subprocess.TimeoutExpired):
+                raise
+            except Exception:
+                ctx.tie_broken.append({"kind": "harness-exception-in-search", "detail": traceback.format_exc()[-2500:]})
 
         # 6: verdict
         known = {f["id"]: f for f in ctx.known()}
@@ -435,7 +447,8 @@ def run_property(pid: str, tier: str, seed: int, replay: str | None = None) -> i
         for fid, f in known.items():
             st = ctx.finding_status.get(fid)
             if st is None:
-                ctx.tie_broken.append({"kind": "known-finding-not-replayed", "finding": fid})
+                if not replay:  # a --replay run re-executes one case only
+                    ctx.tie_broken.append({"kind": "known-finding-not-replayed", "finding": fid})
             elif st[0] == "confirmed":
                 lines.append(f"KNOWN-FINDING: property={pid} {fid}: {f['what']}")
             else:
